@@ -17,13 +17,15 @@ SomOf(type) == IF type = "EventV6_62" THEN 25 ELSE 23
 
 CheckRT(e) ==
   LET L == AllTypes[e.type] IN
-  /\ Judge("C04", "NoPanic", e.enc.t # "panic" /\ e.dec.t # "panic" /\ e.dec2.t # "panic" /\ e.dec3.t # "panic", <<e.enc.t, e.dec.t, e.dec2.t, e.dec3.t>>, "no panic")
+  /\ Judge("C04", "NoPanic", e.enc.t # "panic" /\ e.dec.t # "panic" /\ e.dec2.t # "panic" /\ e.dec3.t # "panic" /\ e.dec4.t # "panic", <<e.enc.t, e.dec.t, e.dec2.t, e.dec3.t, e.dec4.t>>, "no panic")
   /\ Judge("C05", "EncodeExact", e.enc.t = "ok" /\ EncodedOK(L, SomOf(e.type), e.vals, e.enc.b), e.enc, e.vals)
   /\ (IF e.enc.t = "ok"
         THEN /\ Judge("C05", "FlippedOnlySlack", \A i \in 1..Len(e.flipped) : e.flipped[i] \in SlackBytes(L), e.flipped, "slack")
              /\ Judge("C05", "RoundTrip", e.dec.t = "ok" /\ e.dec.v = e.vals, e.dec, e.vals)
              /\ Judge("C05", "RoundTripAs", e.dec3.t = "ok" /\ e.dec3.v = e.vals, e.dec3, e.vals)
              /\ Judge("C05", "SlackIndependent", e.dec2.t = "ok" /\ e.dec2.v = e.vals, e.dec2, e.vals)
+             \* decoded into a struct that already held another decoded message of the type ("none": that one was not to be had)
+             /\ Judge("C05", "ReuseIndependent", e.dec4.t = "none" \/ (e.dec4.t = "ok" /\ e.dec4.v = e.vals), e.dec4, e.vals)
         ELSE TRUE)
 
 CheckDispatch(e) ==
